@@ -152,9 +152,25 @@ def _mk_threshold(M, ty):
     return Threshold()
 
 
+OTHER_SPELLINGS = ('jaccard', 'edit_distance', 'Edit_Distance', 'overlap', 'Overlap')   # the validators compare case-sensitively
+
+
+def _mk_threshold_other(s_, ty):
+    """any other spelling takes the generic branch: threshold in (0, 1] (what the code does; the entry points
+    upper-case the name before they call this validator)"""
+    class ThresholdOther(_Ret):
+        name = '%s-%s' % (s_, 'int' if ty == INT else 'float')
+        params = OD([('threshold', ty), ('sim_measure_type', vstr(s_))])
+
+        def raises(self, c):
+            return {'AssertionError': z3.Not(threshold_valid('JACCARD', c['threshold']))}
+    return ThresholdOther()
+
+
 register(Q + 'validate_threshold',
          [_mk_threshold(M, ty) for M in ('JACCARD', 'COSINE', 'DICE', 'OVERLAP', 'EDIT_DISTANCE',
-                                          'OVERLAP_COEFFICIENT') for ty in (FLOAT, INT)],
+                                          'OVERLAP_COEFFICIENT') for ty in (FLOAT, INT)] +
+         [_mk_threshold_other(s_, ty) for s_ in OTHER_SPELLINGS for ty in (FLOAT, INT)],
          props=('C15',))
 
 
@@ -195,7 +211,7 @@ def _mk_tok_for_measure(M):
 
 
 register(Q + 'validate_tokenizer_for_sim_measure',
-         sum([_mk_tok_for_measure(M) for M in ('JACCARD', 'COSINE', 'DICE', 'OVERLAP', 'EDIT_DISTANCE')], []),
+         sum([_mk_tok_for_measure(M) for M in ('JACCARD', 'COSINE', 'DICE', 'OVERLAP', 'EDIT_DISTANCE') + OTHER_SPELLINGS], []),
          props=('C15',))
 
 
@@ -214,7 +230,8 @@ def _mk_measure_type(s):
 
 
 register(Q + 'validate_sim_measure_type',
-         [_mk_measure_type(s) for s in VALID_M + ('jaccard', 'Cosine', 'OVERLAP_COEFFICIENT', 'LEVENSHTEIN', '')],
+         [_mk_measure_type(s) for s in VALID_M + ('jaccard', 'Cosine', 'OVERLAP_COEFFICIENT', 'LEVENSHTEIN', '') +
+          tuple(x for x in OTHER_SPELLINGS if x != 'jaccard')],
          props=('C15',))
 
 
